@@ -25,7 +25,7 @@ for b in blocks:
 res['run_block'] = run
 def demo():
     if not run: return None, ''
-    cmd = run.replace(orig + '/target', W + '/target').replace(orig, W)
+    cmd = re.sub(re.escape(orig) + r'(?!-out)', W, run)
     cmd = re.sub(r'CARGO_TARGET_DIR=\S+', 'CARGO_TARGET_DIR=%s/target/demo' % W, cmd).replace('-j4', '-j12')
     r = sh(cmd, timeout=3000)
     sh('git clean -fdq -e target')
@@ -33,11 +33,15 @@ def demo():
 rc1, out1 = demo()
 res['demo_with_patch_rc'] = rc1
 # suite with the patch
-r = sh('cargo test --workspace --no-fail-fast --offline -j12 2>&1', timeout=6000)
-failed = set(l.strip() for l in r.stdout.splitlines() if re.match(r'^test .* FAILED$', l.strip()))
-res['suite_new_failures'] = sorted(failed - pre)
-res['suite_failed'] = len(failed)
-res['suite_compiles'] = 'error: could not compile' not in r.stdout
+old = json.load(open(mdir + '/confirm.json')) if os.path.exists(mdir + '/confirm.json') else None
+if old and 'suite_failed' in old and old.get('suite_compiles'):
+    for k in ('suite_new_failures', 'suite_failed', 'suite_compiles'): res[k] = old[k]
+else:
+    r = sh('cargo test --workspace --no-fail-fast --offline -j12 2>&1', timeout=6000)
+    failed = set(l.strip() for l in r.stdout.splitlines() if re.match(r'^test .* FAILED$', l.strip()))
+    res['suite_new_failures'] = sorted(failed - pre)
+    res['suite_failed'] = len(failed)
+    res['suite_compiles'] = 'error: could not compile' not in r.stdout
 sh('git checkout -q -- . && git clean -fdq -e target')
 rc0, out0 = demo()
 res['demo_without_patch_rc'] = rc0
